@@ -334,6 +334,10 @@ def caption_sets(thorough):
                                                       (3 * S, 4 * S, ["next"], None, None)]}}
     yield "one language code a prefix of another", {"langs": {"en-US": [(3 * S, 4 * S, ["american"], None, None)],
                                                               "en": [(S, 2 * S, ["plain"], None, None), (5 * S, 6 * S, ["two"], None, None)]}}
+    yield "a language without captions listed first", {"langs": {"de": [], "fr": [(S, 2 * S, ["bonjour"], None, None),
+                                                                                 (4 * S, 6 * S, ["au revoir"], None, None)]}}
+    yield "a language without captions between two others", {"langs": {
+        "en-US": [(S, 2 * S, ["hello"], None, None)], "de": [], "fr": [(S, 2 * S, ["bonjour"], None, None), (4 * S, 6 * S, ["salut"], None, None)]}}
     yield "language code with metacharacters", {"langs": {"en\"<&>": [(S, 2 * S, ["hello"], None, None)]}}
     # layouts at the three levels
     yield "language layout", {"langs": {"en-US": [(S, 2 * S, ["hello"], None, None)]}, "lang_layout": {"en-US": L1}}
